@@ -96,7 +96,15 @@ class FnTrace:
 
 
 def _alphabet_re(alphabet):
-    return z3.Union(*[z3.Re(z3.StringVal(ch)) for ch in alphabet]) if len(alphabet) > 1 else z3.Re(z3.StringVal(alphabet))
+    """alphabet: string / list of characters; the pseudo-element 'PRINTABLE' stands for
+    the ASCII range ' '..'~'"""
+    parts = []
+    for ch in alphabet:
+        if ch == "PRINTABLE":
+            parts.append(z3.Range(" ", "~"))
+        else:
+            parts.append(z3.Re(z3.StringVal(ch)))
+    return z3.Union(*parts) if len(parts) > 1 else parts[0]
 
 
 def _nonlinear(tp: Template) -> bool:
@@ -558,6 +566,20 @@ def _structural(tp: Template, b: Built) -> list[Obl]:
     return out
 
 
+def model_for_inputs(b: Built, subs):
+    """a z3 model in which the symbolic inputs equal the given concrete tables (fresh
+    definitional symbols of the interpreters are completed by the solver)"""
+    sol = z3.Solver()
+    sol.set("timeout", 10000)
+    for var, val in subs:
+        sol.add(var == val)
+    for c in b.world.side + b.side:
+        sol.add(c)
+    if str(sol.check()) != "sat":
+        return None
+    return sol.model()
+
+
 def validate_models(tp: Template, b: Built, cfg: Cfg, rng: random.Random) -> list[Obl]:
     """Serval-style validation of the two engine models: concrete random tables are
     pushed through the real engine and through the interpreter's output terms."""
@@ -585,7 +607,10 @@ def validate_models(tp: Template, b: Built, cfg: Cfg, rng: random.Random) -> lis
             # fresh symbols (unspecified order) stay symbolic: only validate when the
             # output terms become ground
             try:
-                rows_m = K.concrete_rows(b.rel[be], subs, ordered=False)
+                mdl = model_for_inputs(b, subs)
+                if mdl is None:
+                    continue
+                rows_m = K.concrete_rows(b.rel[be], mdl, ordered=False)
             except Exception:  # noqa: BLE001
                 continue
             try:
@@ -630,7 +655,10 @@ def fallback_concrete(tp: Template, b: Built, cfg: Cfg, rng: random.Random, be: 
         try:
             if not all(z3.is_true(z3.simplify(z3.substitute(c, *subs))) for _, c in b.world.defs):
                 continue
-            ref_rows = K.concrete_rows(ref_rel, subs, ordered=False)
+            mdl = model_for_inputs(b, subs)
+            if mdl is None:
+                continue
+            ref_rows = K.concrete_rows(ref_rel, mdl, ordered=False)
         except Exception:  # noqa: BLE001
             continue
         tried += 1
@@ -658,6 +686,8 @@ def random_rows(schema, nmax, rng, tp: Template):
     n = rng.randint(0, nmax)
     rows = []
     alpha = tp.alphabet or "ab "
+    if not isinstance(alpha, str):
+        alpha = "".join("aA %_'-\\/;." if ch == "PRINTABLE" else ch for ch in alpha)
     for _ in range(n):
         row = {}
         for c, ty in schema.items():
